@@ -98,14 +98,21 @@ pub fn run(ctx: &mut Ctx) {
             let inputs: Vec<Value> = its.iter().map(|t| rand_value(&mut ctx.rng, t, Fill::Uniform)).collect();
             let mut obs = Obs::new(ctx.rng.seed16());
             obs.log_prf = true;
+            let heavy = work_bits(&full) > HEAVY_WORK_BITS * 4;
+            if heavy {
+                ctx.count("skipped_heavy_execution", 1);
+            }
             let r = {
                 let (c, o) = (full.clone(), &mut obs);
                 guard(move || {
+                    if heavy {
+                        return Ok(None);
+                    }
                     o.preprocess(&c)?;
-                    o.evaluate_context(c, inputs)
+                    o.evaluate_context(c, inputs).map(Some)
                 })
             };
-            if let Ok(Ok(_)) = r {
+            if let Ok(Ok(Some(_))) = r {
                 ctx.count("prf_calls_logged", obs.prf_calls.len() as u64);
                 let mut seen: HashMap<(Vec<u8>, u64), (u64, u64)> = HashMap::new();
                 for call in obs.prf_calls.iter() {
